@@ -1,4 +1,5 @@
 import SdbModel.Lemmas.Serial
+import SdbModel.Lemmas.OMap
 import SdbModel.Generated.Protocol
 
 /-!
@@ -136,6 +137,91 @@ theorem C06_commit_closes_replaced_version (t : Txn) (hc : t.commit = true)
     (hp : t.phase = .stored ∨ t.phase = .done) (x : Nat) (hx : x ∈ t.tabs) : (x, t.old x) ∈ closes t := by
   simp only [closes, hc, hp, and_self, if_true, List.mem_map]
   exact ⟨x, hx, rfl⟩
+
+/-! ## from "the query's result changed" to "a key under the query changed"
+
+A table query through a part index hands out the watch channel of the radix-tree node
+that covers its key / prefix (C12: that channel is closed by every transaction that
+inserts, replaces or deletes a key under it).  What remains for C06's first clause is
+that a CHANGED RESULT implies such a key: stated here over the abstract index maps of
+`Model.Table` (sorted association lists), for the three query shapes. -/
+
+open Tbl Tbl.OMap in
+/-- Get: a changed answer for key `k` is a change at `k` (trivially) -/
+theorem C06_get_result_change_is_key_change {α : Type} (m m' : OMap α) (k : Key) (h : m.get k ≠ m'.get k) :
+    ∃ k', k' = k ∧ m.get k' ≠ m'.get k' := ⟨k, rfl, h⟩
+
+open Tbl Tbl.OMap in
+/-- Prefix / List: if the entries under prefix `p` differ between two versions of an index,
+    some key that starts with `p` was inserted, replaced or removed -/
+theorem C06_prefix_result_change_is_key_change {α : Type} (m m' : OMap α) (hm : Sorted m) (hm' : Sorted m')
+    (p : Key) (h : m.prefixQ p ≠ m'.prefixQ p) :
+    ∃ k, p <+: k ∧ m.get k ≠ m'.get k := by
+  apply Classical.byContradiction
+  intro hne
+  apply h
+  apply ext_get _ _ (sorted_prefixQ m hm p) (sorted_prefixQ m' hm' p)
+  intro k
+  have key : ∀ (n : OMap α), Sorted n → ∀ v, (n.prefixQ p).get k = some v ↔ (n.get k = some v ∧ p <+: k) := by
+    intro n hn v
+    rw [← mem_iff_get _ (sorted_prefixQ n hn p), mem_prefixQ, mem_iff_get _ hn]
+  by_cases hp : p <+: k
+  · have heq : m.get k = m'.get k := by
+      apply Classical.byContradiction
+      intro hk; exact hne ⟨k, hp, hk⟩
+    cases h1 : (m.prefixQ p).get k with
+    | none =>
+      cases h2 : (m'.prefixQ p).get k with
+      | none => rfl
+      | some w =>
+        have := (key m' hm' w).mp h2
+        have : (m.prefixQ p).get k = some w := (key m hm w).mpr ⟨heq ▸ this.1, hp⟩
+        rw [h1] at this; exact absurd this (by simp)
+    | some v =>
+      have := (key m hm v).mp h1
+      exact ((key m' hm' v).mpr ⟨heq ▸ this.1, hp⟩).symm
+  · cases h1 : (m.prefixQ p).get k with
+    | none =>
+      cases h2 : (m'.prefixQ p).get k with
+      | none => rfl
+      | some w => exact absurd ((key m' hm' w).mp h2).2 hp
+    | some v => exact absurd ((key m hm v).mp h1).2 hp
+
+open Tbl Tbl.OMap in
+/-- LowerBound / All: if the entries from bound `b` on differ, some key not below `b` changed
+    (with the empty bound: any change of the index — the root watch) -/
+theorem C06_lowerBound_result_change_is_key_change {α : Type} (m m' : OMap α) (hm : Sorted m) (hm' : Sorted m')
+    (b : Key) (h : m.lowerBound b ≠ m'.lowerBound b) :
+    ∃ k, cmpL k b ≠ .lt ∧ m.get k ≠ m'.get k := by
+  apply Classical.byContradiction
+  intro hne
+  apply h
+  apply ext_get _ _ (sorted_lowerBound m hm b) (sorted_lowerBound m' hm' b)
+  intro k
+  have key : ∀ (n : OMap α), Sorted n → ∀ v, (n.lowerBound b).get k = some v ↔ (n.get k = some v ∧ cmpL k b ≠ .lt) := by
+    intro n hn v
+    rw [← mem_iff_get _ (sorted_lowerBound n hn b), mem_lowerBound, mem_iff_get _ hn]
+  by_cases hp : cmpL k b ≠ .lt
+  · have heq : m.get k = m'.get k := by
+      apply Classical.byContradiction
+      intro hk; exact hne ⟨k, hp, hk⟩
+    cases h1 : (m.lowerBound b).get k with
+    | none =>
+      cases h2 : (m'.lowerBound b).get k with
+      | none => rfl
+      | some w =>
+        have := (key m' hm' w).mp h2
+        have : (m.lowerBound b).get k = some w := (key m hm w).mpr ⟨heq ▸ this.1, hp⟩
+        rw [h1] at this; exact absurd this (by simp)
+    | some v =>
+      have := (key m hm v).mp h1
+      exact ((key m' hm' v).mpr ⟨heq ▸ this.1, hp⟩).symm
+  · cases h1 : (m.lowerBound b).get k with
+    | none =>
+      cases h2 : (m'.lowerBound b).get k with
+      | none => rfl
+      | some w => exact absurd ((key m' hm' w).mp h2).2 hp
+    | some v => exact absurd ((key m hm v).mp h1).2 hp
 
 /-! ## non-vacuity -/
 example : ∃ s, Reachable s ∧ ∃ t, s.txns[0]? = some t ∧ (0, 0) ∈ closes t ∧ s.root 0 = 1 := by
